@@ -487,7 +487,7 @@ C12(c, o) ==
       Chk([ i \in DOMAIN fs |-> [ name |-> fs[i].name, ty |-> fs[i].ty ] ] = [ i \in DOMAIN S.overrides |-> [ name |-> S.overrides[i].name, ty |-> CO!FieldType(S.overrides[i]) ] ],
           "fields of OverrideConstants are " \o ToJson([ i \in DOMAIN fs |-> [ name |-> fs[i].name, ty |-> fs[i].ty ] ]) \o " for overrides " \o ToJson([ i \in DOMAIN S.overrides |-> [ name |-> S.overrides[i].name, ty |-> CO!FieldType(S.overrides[i]) ] ]))
       \cup { "OverrideConstants cannot be used as documented: " \o m : m \in ProbeFail(o, "overrides") }
-      \cup (IF ProbeFail(o, "overrides") = {} THEN
+      \cup (IF ProbeFail(o, "overrides") = {} /\ [ i \in DOMAIN fs |-> fs[i].name ] = [ i \in DOMAIN S.overrides |-> S.overrides[i].name ] THEN
               Chk(Len(runs) > 0 /\ Len(res) = Len(runs), "PROJ constants() was not exercised")
               \cup UNION { Chk(CO!MapOk(S, runs[i].assign, runs[i].map), "constants() returned " \o ToJson(runs[i].map) \o " for the assignment " \o ToJson(runs[i].assign) \o "; expected " \o ToJson(CO!ExpectedMap(S, runs[i].assign))) : i \in DOMAIN runs }
               \cup (IF Len(res) = Len(runs) THEN
